@@ -117,6 +117,8 @@ func canonReal(r rt.Result) string {
 	}
 	class := "other"
 	switch {
+	case strings.HasPrefix(r.Err, "unwrapped:"):
+		class = "cause-not-wrapped"
 	case strings.Contains(r.Err, "verif: expression failed"):
 		class = "expr"
 	case strings.Contains(r.Err, "goht: invalid"):
